@@ -785,6 +785,8 @@ def run(an: Analysis, rep):
     rep.run(r115, an, rep)
     from .common import purity
     rep.run(purity, an, rep, "R11.P", ["from_code", "to_code"])
+    from . import c01 as _c01
+    rep.run(_c01.r01a, an, rep, "R11.L", "not dropped")
     from .common import truthiness_rule
     rep.run(truthiness_rule, an, rep, "R11.T", ["from_code", "to_code", "parameters"], [("Args", "var_positional"), ("Args", "var_keyword")],
             what="the name of *args / **kwargs (Optional[str]: '' is a name a hand-made code object can carry, None means the parameter is absent)")
